@@ -829,6 +829,46 @@ fn empty_with_undecodable_names(ctx: &mut Ctx) {
     let _ = crate::sandbox::force_remove(&base);
 }
 
+/// 150 hard links (and 150 symbolic links to them) in 150 directories, 64 file descriptors: -samefile,
+/// -inum, -links, -type and -xtype answer for the last entry as for the first, under -P and -L.
+fn low_descriptor_slice(ctx: &mut Ctx) {
+    use crate::props::lowfd;
+    let sbx = lowfd::build(ctx);
+    let ino = lb::lstat(&sbx.join("lf/d000/f")).map(|s| s.ino).unwrap_or(0).to_string();
+    let n = lowfd::NDIRS;
+    for (flag, test, want) in [
+        ("-P", vec!["-samefile", "lf/d000/f"], n),
+        ("-L", vec!["-samefile", "lf/d000/f"], 2 * n),
+        ("-P", vec!["-inum", ino.as_str()], n),
+        ("-L", vec!["-inum", ino.as_str()], 2 * n),
+        ("-P", vec!["-links", "150"], n),
+        ("-L", vec!["-links", "150"], 2 * n),
+        ("-P", vec!["-type", "l"], n),
+        ("-P", vec!["-xtype", "f"], 2 * n),
+        ("-L", vec!["-xtype", "l"], n),
+        ("-P", vec!["-lname", "f"], n),
+        ("-P", vec!["-empty"], 0),
+        ("-P", vec!["-perm", "-600", "-type", "f"], n),
+        ("-P", vec!["-uid", "0", "-gid", "0", "-type", "f"], n),
+    ] {
+        let mut args: Vec<&str> = vec![flag, "lf"];
+        args.extend(test.iter().copied());
+        let o = lowfd::find(ctx, &args, 64, vec![]);
+        ctx.rep.evaluations += 1;
+        ctx.rep.nontrivial += 1;
+        ctx.rep.count("low_descriptor_limit_cases", 1);
+        let got = lowfd::lines(&o.out).len();
+        if o.died() || o.code != Some(0) || got != want {
+            ctx.rep.violation(
+                &format!("C13 {} over 150 directories with 64 file descriptors: later entries are not judged on their own status records [{flag}]", test[0]),
+                format!("find {:?} under RLIMIT_NOFILE=64: {got} entries selected, expected {want}; status {:?}; stderr {:?}", args, o.code, String::from_utf8_lossy(&o.err).lines().take(2).collect::<Vec<_>>()),
+                json!({"prop":"C13","low_descriptor":true}),
+            );
+        }
+    }
+    lowfd::remove(ctx);
+}
+
 fn follow_word_after_slice(ctx: &mut Ctx) {
     let sbx = ctx.sbx.clone();
     if let Err(e) = build_kinds(&sbx) {
@@ -882,6 +922,9 @@ fn run(ctx: &mut Ctx) {
     if ctx.shard == 5 % ctx.nshards {
         empty_with_undecodable_names(ctx);
     }
+    if ctx.shard == 6 % ctx.nshards {
+        low_descriptor_slice(ctx);
+    }
     part_kinds(ctx);
     let sbx = ctx.sbx.clone();
     if let Err(e) = build_perm(&sbx, ctx.tier == Tier::Thorough) {
@@ -895,6 +938,10 @@ fn run(ctx: &mut Ctx) {
 
 fn replay(case: &Value, ctx: &mut Ctx) -> Option<String> {
     let sbx = ctx.sbx.clone();
+    if case["low_descriptor"] == true {
+        low_descriptor_slice(ctx);
+        return ctx.rep.violations.keys().next().cloned();
+    }
     if case["empty_undecodable"] == true {
         empty_with_undecodable_names(ctx);
         return ctx.rep.violations.keys().next().cloned();
